@@ -137,6 +137,18 @@ CHECKS = {
             rapid("concurrent-race", "^TestC11Concurrent$", 3000, 8, race=True, timeout=3000),
         ],
     },
+    "C14": {
+        "quick": [
+            plain("regress", "^TestRegressC14"),
+            rapid("args", "^TestC14Args$", 40000, 3),
+            rapid("messages", "^TestC14Messages$", 40000, 1),
+        ],
+        "thorough": [
+            plain("regress", "^TestRegressC14"),
+            rapid("args", "^TestC14Args$", 600000, 12, timeout=3000),
+            rapid("messages", "^TestC14Messages$", 600000, 4, timeout=3000),
+        ],
+    },
     "C16": {
         "quick": [
             plain("regress", "^TestRegressC16"),
@@ -167,6 +179,7 @@ CHECKS = {
 LEVELS = {"C10": "fault_enumeration"}
 
 RULES = {
+    "C14": "cases = argument lists of length 0-9 mixing typed zap.Fields (from Spec trees), string keys (incl. empty, duplicate, 'error', 'ignored'), non-string keys (int, custom string type, slice, bool, float, struct, []byte, pointer), bare errors (plain, verbose, group, nil-pointer, panicking), nil and arbitrary values of every dynamic type zap.Any special-cases, in every order, through Debugw..Fatalw, Logw, With, WithLazy and With followed by a *w call, on enabled and fully disabled loggers; templates from a grammar of % verbs with 0-5 arguments through print-, printf-, println-style and Log/Logf/Logln at every level. Oracle = independent reference sweep from the With documentation (fields compared by key/type/recorded calls; every diagnostic must be matched by an Error-level entry identifying the item) and fmt.Sprint/Sprintf/Sprintln. Non-trivial = a Field or error before a pair (parity shift) or any invalid item; message job: formatting with arguments. Distinct = distinct (mode, level, argument kind sequence).",
     "C11": "cases = first N and thereafter M in 0..6 plus large values, tick 1ns..10s, sequences of 1-60 entries with level in {-2,-1,0,1,2,5,6,100}, message from an alphabet with pre-computed FNV-colliding pairs, timestamps advancing by {0,1,tick-1,tick,tick+1,...}, wrapped core threshold drawn, entries through the sampler, two With-derived samplers (shared budget) and an independent sampler (own budget), decision hook recorded; a Logger path with a stepped clock; concurrent: one entry opens a window, then 2-8 goroutines x 1-200 entries of the same key inside it. Reference model from the statement using hash/fnv. Non-trivial = (entry exactly at a window end and a dropped entry and a thereafter admission) or a colliding pair sharing a budget. Distinct = distinct (N, M, tick, threshold, class flags, length class).",
     "C06": "cases = configurations drawn from the product core {JSON over a 1 MiB/1 h BufferedWriteSyncer over a recording sink, tee with observer in either order, no-op, sampler that drops everything, level-increased} x threshold -1..7 x development on/off x hook {default, nil, WriteThenNoop, WriteThenGoexit, custom recording} x level {DPanic, Panic, Fatal} x every front end (Logger methods, Log, Check+Write, all Sugar variants, NewStdLogAt Print/Printf/Println/Output, RedirectStdLogAt, zapgrpc Fatal*, globals L/S; completeness checked by reflection); a deterministic sweep of 5130 configurations; child processes re-executing the test binary with the real default actions, a real file and a buffered sink. Non-trivial = entry disabled/no-op/sampled-out, nil or no-op hook, or enabled entry behind the buffer. Distinct = distinct configurations.",
     "C05": "cases = core-composition trees (depth <= 4, tees of 0-3 branches) of observer and JSON IO leaves under tee / increase-level / hooks / pass-all sampler / lazy-with / With wrappers, each enabler an arbitrary subset of all 256 level values (monotone, non-monotone, empty) or a shared AtomicLevel; then a rapid state-machine history: log at any of the 256 levels through Log, Check+Write, level methods, Sugar Log/Logw/Logf/Logln, zapgrpc, slog handler; SetLevel on a shared AtomicLevel to any value; derive children (With, Named, WithLazy, WithOptions(IncreaseLevel/Hooks)); read Enabled for all 256 values, Logger.Level, LevelOf, gRPC V, slog Enabled. Reference model written from the statement decides deliveries, hook calls and marshaling counts after every op. Non-trivial = tree depth >= 2 with a tee whose branches differ in enablement for the logged level or a hook behind a tee, or an AtomicLevel change between two logs. Distinct = distinct (tree shape with enabler kinds, number of derived loggers, class flags).",
@@ -191,6 +204,11 @@ ASSUMPTIONS = {
 TRUST = "Trusted base: Go toolchain/runtime, rapid's generators and shrinker, the reference model/oracle code in /verif/harness/props, and the standard-library packages used as reference implementations. Search-based: absence of a counterexample in the generated cases is not a proof."
 
 META = {
+    "C14": {
+        "technique": "property-based testing (rapid): generated loosely-typed argument lists vs an independent reference sweep; differential message formatting against package fmt",
+        "level_text": "For each generated argument list the main entry observed through an observer core must carry exactly the reference fields in order (typed fields untouched, pairs as zap.Any would encode them, first bare error under 'error'), every dangling key / non-string-key pair (with position, key and value) / additional bare error must be identified by its own Error-level entry, nothing may panic, and a disabled logger must emit nothing; messages must equal fmt.Sprint / fmt.Sprintf (template verbatim without arguments) / fmt.Sprintln minus the newline. Exploration over an unbounded argument space.",
+        "level_note": TRUST + " D1: Infof(\"\", args...) yields fmt.Sprint(args...) (zap's own test documents this degradation). Diagnostics are matched by content, not by message wording or order.",
+    },
     "C11": {
         "technique": "model-based property testing (rapid): generated (level, message, timestamp) histories vs a reference window/budget model with independent FNV hashing; exact-count check under concurrency",
         "level_text": "Every generated entry is decided by both the sampler and a reference model written from the statement (window opens when the stamp reaches the window end; admitted iff count <= N or (count-N) divisible by M; disabled levels consume nothing; out-of-range levels pass unhooked; derived cores share, independent samplers do not); forwarded-to-core, hook call count and the hook's decision must agree per entry. Concurrently, for entries of one key inside one open window the admitted total, the hook call total and the number of LogSampled decisions must be exact. Exploration over unbounded histories with boundary-biased timestamps.",
